@@ -348,6 +348,125 @@ def gen_snap_unit(r, ids):
     return u_, hints
 
 
+def scale_prim(p, f):
+    q = dict(p)
+    k = p["k"]
+    if k in ("box", "sphere", "cyl", "cone", "ellipsoid"):
+        q["p"] = [x * f for x in p["p"]]
+    elif k == "prism":
+        q["p"] = [p["p"][0] * f, p["p"][1] * f, p["p"][2]]
+    elif k == "genprism":
+        q["p"] = [p["p"][0] * f]
+        q["lo"] = [[c * f for c in v] for v in p["lo"]]
+        q["hi"] = [[c * f for c in v] for v in p["hi"]]
+    else:
+        return None
+    if p.get("bb"):
+        q["bb"] = [b * f for b in p["bb"]]
+    q["rad"] = p["rad"] * f
+    return q
+
+
+def surface_point(r, p):
+    """(point on the surface of a primitive, outward unit normal) in its local frame, or None"""
+    k = p["k"]
+    nrm = lambda v: [x / (math.sqrt(sum(y * y for y in v)) or 1.0) for x in v]
+    if k == "sphere":
+        n = unit_vec(r, "any")
+        return [p["p"][0] * x for x in n], n
+    if k == "ellipsoid":
+        n = unit_vec(r, "any")
+        c = [p["p"][i] * n[i] for i in range(3)]
+        return c, nrm([c[i] / p["p"][i] ** 2 for i in range(3)])
+    if k == "cyl":
+        ph = r.uniform(0, 2 * math.pi)
+        rad, hh = p["p"]
+        if r.random() < 0.75:
+            return [rad * math.cos(ph), rad * math.sin(ph), r.uniform(-0.95, 0.95) * hh], [math.cos(ph), math.sin(ph), 0.0]
+        sg = r.choice([-1.0, 1.0])
+        rr = rad * math.sqrt(r.random()) * 0.95
+        return [rr * math.cos(ph), rr * math.sin(ph), sg * hh], [0.0, 0.0, sg]
+    if k == "cone":
+        lo, hi, hh = p["p"]
+        z = r.uniform(-0.95, 0.95) * hh
+        rad = lo + (hi - lo) * (z + hh) / (2 * hh)
+        ph = r.uniform(0, 2 * math.pi)
+        sl = (hi - lo) / (2 * hh)
+        return [rad * math.cos(ph), rad * math.sin(ph), z], nrm([math.cos(ph), math.sin(ph), -sl])
+    if k == "box":
+        h = p["p"]
+        ax = r.randrange(3)
+        sg = r.choice([-1.0, 1.0])
+        c = [r.uniform(-0.95, 0.95) * h[i] for i in range(3)]
+        c[ax] = sg * h[ax]
+        n = [0.0, 0.0, 0.0]
+        n[ax] = sg
+        return c, n
+    return None
+
+
+def gen_pair_unit(r, ids):
+    """two solids of the same kind whose surfaces are near-identical but distinct: they differ in
+    exactly one respect -- mirrored tilt (cross terms of the general quadric), rotation about another
+    axis / permuted radii (second-order terms), size (constant / second order), position (first order
+    + constant) -- macroscopically or at the tolerance scale, or are exact copies (must merge).
+    Soft de-duplication must keep distinct surfaces distinct: probes go into the symmetric difference."""
+    label = "u%d" % ids[0]
+    ids[0] += 1
+    kind = r.choice(["cyl", "cyl", "cone", "cone", "ellipsoid", "ellipsoid", "prism", "box", "genprism", "sphere"])
+    A = G.gen_prim(r, 0.55, [kind])
+    ax = r.randrange(3)
+    th = r.choice([r.uniform(0.02, 0.23), 1.0 / 12, 0.125, r.uniform(0.02, 0.48), r.uniform(0.02, 0.23)])
+    R0 = G.IDM
+    if r.random() < 0.35:
+        R0 = G.rot_axis(r.randrange(3), r.choice([0.25, r.uniform(0.03, 0.45)]))
+    RA = G.matmul(G.rot_axis(ax, th), R0)
+    t0 = [0.0, 0.0, 0.0] if r.random() < 0.6 else [r.uniform(-1, 1) for _ in range(3)]
+    variant = r.choice(["mirror", "mirror", "mirror", "otheraxis", "permute", "size", "size_tiny", "shift", "shift_tiny", "same"])
+    B, RB, tB = A, RA, list(t0)
+    hints = []
+    if variant == "permute" and kind in ("ellipsoid", "box"):
+        B = dict(A)
+        B["p"] = [A["p"][1], A["p"][2], A["p"][0]]
+        B["bb"] = list(B["p"])
+    elif variant == "otheraxis":
+        RB = G.matmul(G.rot_axis((ax + 1) % 3, th), R0)
+    elif variant in ("size", "size_tiny"):
+        f = 1 + (r.choice([0.3, 0.05, -0.1, -0.02]) if variant == "size" else r.choice([-1, 1]) * snap_delta(r))
+        B = scale_prim(A, f) or A
+        if B is not A and abs(f - 1) < 0.01:
+            for _ in range(14):
+                sp = surface_point(r, A)
+                if sp:
+                    g = r.uniform(0.3, 0.7)
+                    hints.append(G.tf_apply((RA, t0), [c * (1 + g * (f - 1)) for c in sp[0]]))
+    elif variant in ("shift", "shift_tiny"):
+        d = r.uniform(0.05, 0.5) if variant == "shift" else snap_delta(r)
+        u = unit_vec(r)
+        tB = [t0[i] + d * u[i] for i in range(3)]
+        if d < 0.01:
+            ul = G.tf_inv_apply((RA, [0.0, 0.0, 0.0]), u)          # shift direction in the local frame
+            for _ in range(14):
+                sp = surface_point(r, A)
+                if sp:
+                    c, n = sp
+                    sn = d * sum(ul[i] * n[i] for i in range(3))
+                    g = r.uniform(0.3, 0.7)
+                    hints.append(G.tf_apply((RA, t0), [c[i] + g * sn * n[i] for i in range(3)]))
+    elif variant == "same":
+        pass
+    else:   # mirror image of the tilt: same squared / linear / constant coefficients, opposite cross terms
+        RB = G.matmul(G.rot_axis(ax, -th), R0) if r.random() < 0.7 else G.matmul(G.rot_axis(ax, th), G.matmul(G.rot_axis(ax, 0.5), R0))
+    a_ = ("trans", (RA, t0, "tf"), ("prim", A))
+    b_ = ("trans", (RB, tB, "tf"), ("prim", B))
+    boundary = ("def", "bnd", ("prim", dict(k="box", p=[4.0, 4.0, 4.0], bb=[4.0] * 3)))
+    mats = [(label + ".m0", ("def", "a", a_)), (label + ".m1", ("all", [b_, ("neg", ("ref", "a"))]))]
+    if r.random() < 0.3:
+        mats.append((label + ".m2", ("all", [("prim", dict(k="sphere", p=[3.0], bb=[3.0] * 3)), ("neg", ("ref", "a")), ("neg", b_)])))
+    u_ = new_unit(label, boundary, "media", [], mats, True)
+    return u_, hints
+
+
 def gen_gap_unit(r, ids):
     """two boxes / cylinders separated by a small gap (near-coincident
     surfaces: soft de-duplication must not merge surfaces farther apart than
@@ -436,11 +555,13 @@ def norm_signed(sense_in, coefs):
 
 # ---------------------------------------------------------------------------
 
-def parse_harness(out):
-    """-> dict case_id -> dict(prims=[...], probes=[...], error=str|None)"""
-    res = {}
-    cur = None
-    lines = out.splitlines()
+def _num(x):
+    return float(x) if ("inf" in x or "nan" in x) else float.fromhex(x)
+
+
+def parse_block(lines):
+    """one case's output lines (between `case` and `endcase`) -> dict; raises on malformed output"""
+    cur = dict(prims=[], probes=None, error=None, vols={}, crash=None)
     i = 0
     while i < len(lines):
         ln = lines[i].strip()
@@ -448,14 +569,7 @@ def parse_harness(out):
         if not ln:
             continue
         tok = ln.split()
-        if tok[0] == "case":
-            cur = dict(prims=[], probes=None, error=None, vols={})
-            res[tok[1]] = cur
-        elif tok[0] == "endcase":
-            cur = None
-        elif cur is None:
-            continue
-        elif tok[0] == "error":
+        if tok[0] == "error":
             cur["error"] = ln[6:]
         elif tok[0] == "prim-error":
             cur["prims"].append(dict(error=ln[11:]))
@@ -466,16 +580,17 @@ def parse_harness(out):
                 t = lines[i].split()
                 i += 1
                 nd = int(t[2])
-                surfs.append((t[0] == "in", t[1], [float.fromhex(x) if x not in ("inf", "-inf", "nan") else float(x) for x in t[3:3 + nd]]))
+                if t[0] not in ("in", "out") or len(t) != 3 + nd:
+                    raise ValueError("malformed surface line %r" % lines[i - 1])
+                surfs.append((t[0] == "in", t[1], [_num(x) for x in t[3:3 + nd]]))
             bb = {}
-            for _ in range(2):
+            while i < len(lines) and lines[i].split() and lines[i].split()[0] in ("bbox_int", "bbox_ext", "gbbox_ext"):
                 t = lines[i].split()
                 i += 1
-                bb[t[0]] = None if t[1] == "null" else [float.fromhex(x) if "inf" not in x else float(x) for x in t[1:7]]
+                bb[t[0]] = None if t[1] == "null" else [_num(x) for x in t[1:7]]
             cur["prims"].append(dict(kind=tok[1], surfs=surfs, bb=bb))
         elif tok[0] == "vol":
-            bb = None if tok[3] == "null" else [float.fromhex(x) if "inf" not in x else float(x) for x in tok[3:9]]
-            cur["vols"][(tok[1], tok[2])] = bb
+            cur["vols"][(tok[1], tok[2])] = None if tok[3] == "null" else [_num(x) for x in tok[3:9]]
         elif tok[0] == "probes":
             n = int(tok[1])
             pr = []
@@ -485,9 +600,64 @@ def parse_harness(out):
                 if t[0] in ("FAILED", "NOVOLUME"):
                     pr.append((t[0], None))
                 else:
-                    nm = t[0].split("@")[0]
-                    pr.append((nm, int(t[1])))
+                    if len(t) != 2:
+                        raise ValueError("malformed probe line %r" % lines[i - 1])
+                    pr.append((t[0].split("@")[0], int(t[1])))
             cur["probes"] = pr
+        else:
+            raise ValueError("unexpected output line %r" % ln)
+    return cur
+
+
+def split_cases(out):
+    """harness stdout -> {case id: (lines, complete?)}"""
+    res = {}
+    cid, buf = None, []
+    for ln in out.splitlines():
+        tok = ln.split()
+        if tok and tok[0] == "case" and len(tok) == 2:
+            cid, buf = tok[1], []
+            res[cid] = (buf, False)
+        elif tok and tok[0] == "endcase" and cid is not None:
+            res[cid] = (buf, True)
+            cid = None
+        elif cid is not None:
+            buf.append(ln)
+    return res
+
+
+def run_cases(ctx, exe, header, cases):
+    """run the harness on [(case id, text)]; never raises for a misbehaving harness: a case whose
+    output is missing / malformed (crash, abort, garbage) is re-run alone and comes back with
+    result['crash'] = description, so that the caller can report it with its input as replay"""
+    rc, out = ctx.run_harness(exe, input=header + "\n" + "\n".join(t for _, t in cases) + "\n", timeout=1500)
+    blocks = split_cases(out)
+    res = {}
+    redo = []
+    for cid, text in cases:
+        blk = blocks.get(cid)
+        if blk is None or not blk[1]:
+            redo.append((cid, text))
+            continue
+        try:
+            res[cid] = parse_block(blk[0])
+        except Exception as ex:          # noqa: malformed output of this case
+            redo.append((cid, text))
+    for cid, text in redo[:400]:
+        rc1, out1 = ctx.run_harness(exe, input=header + "\n" + text + "\n", timeout=300)
+        blk = split_cases(out1).get(cid)
+        r = None
+        if blk is not None and blk[1]:
+            try:
+                r = parse_block(blk[0])
+            except Exception as ex:
+                r = dict(prims=[], probes=None, error=None, vols={}, crash="malformed harness output: %s" % ex)
+        if r is None:
+            r = dict(prims=[], probes=None, error=None, vols={},
+                     crash="harness died (rc=%d) while building / probing this case; output tail: %s" % (rc1, out1[-300:]))
+        res[cid] = r
+    for cid, text in redo[400:]:
+        res[cid] = dict(prims=[], probes=None, error=None, vols={}, crash="harness output missing (not re-run)")
     return res
 
 
@@ -579,28 +749,30 @@ def run(ctx):
     f6 = dict(k="genprism", p=[1.0], lo=[[1.0, 1.0], [-1.0, 0.0], [1.0, -1.0]],
               hi=[[0.0, 0.2], [0.0, 0.2], [0.5, -0.3]], bb=[1.0, 1.0, 1.0])
     prims = [f6] + load_corpus_prims() + prim_cases(r, n_prims)
-    inp.append("case prims")
-    for p in prims:
-        inp.append("prim " + G.prim_text(p))
-    inp.append("endcase")
+    cases = []
+    for i, p in enumerate(prims):
+        cases.append(("p%d" % i, "case p%d\nprim %s\nendcase" % (i, G.prim_text(p))))
     # the same primitives built under a transform: offsets at the scales where the simplifier's
     # "snap to a simpler surface" rules decide (k*tol, sqrt(tol), log-uniform 1e-9..1e-3), tiny
     # rotations, quarter turns, and general rotations / reflections
     tprims = [(i, snap_tf(r) if i % 3 else G.rand_tf(r, 3.0)) for i in range(len(prims))]
-    inp.append("case tprims")
     for i, tr in tprims:
-        inp.append("primt %s %s" % (G.tf_text(tr), G.prim_text(prims[i])))
-    inp.append("endcase")
+        cases.append(("q%d" % i, "case q%d\nprimt %s %s\nendcase" % (i, G.tf_text(tr), G.prim_text(prims[i]))))
     trees = []
     corpus = corpus_trees()
     n_snap = int(os.environ.get("C09_SNAP", 60 if quick else 900))
-    for ti in range(n_trees + len(corpus) + n_snap):
+    n_pair = int(os.environ.get("C09_PAIR", 60 if quick else 900))
+    for ti in range(n_trees + len(corpus) + n_snap + n_pair):
         ids = [0]
         hints = []
         margin = MARGIN
         npts = n_probe
         if ti < len(corpus):
             top, hints = corpus[ti]
+        elif ti >= n_trees + len(corpus) + n_snap:
+            top, hints = gen_pair_unit(r, ids)
+            margin = MARGIN_SNAP
+            npts = len(hints) + 36
         elif ti >= n_trees + len(corpus):
             top, hints = gen_snap_unit(r, ids)
             margin = MARGIN_SNAP
@@ -618,8 +790,11 @@ def run(ctx):
                 pts.append([r.uniform(-ext, ext) for _ in range(3)])
             else:
                 bb, tr, _ = r.choice(pl)
-                f = r.choice([1.02, 1.25, 1.25, 1.6])
-                loc = [r.uniform(-1, 1) * b * f for b in bb]
+                if r.random() < 0.25:      # near a corner of the primitive's local box (rotated-bbox corners)
+                    loc = [r.choice([-1, 1]) * b * r.uniform(0.8, 0.999) for b in bb]
+                else:
+                    f = r.choice([1.02, 1.25, 1.25, 1.6])
+                    loc = [r.uniform(-1, 1) * b * f for b in bb]
                 pts.append(G.tf_apply(tr, loc))
         lines = ["case t%d" % ti]
         unit_text(top, set(), lines)
@@ -627,13 +802,20 @@ def run(ctx):
         lines += [" ".join(float(x).hex() for x in p) for p in pts]
         lines.append("endcase")
         trees.append(dict(top=top, pts=pts, text="\n".join(lines), margin=margin))
-        inp.append(trees[-1]["text"])
+        cases.append(("t%d" % ti, trees[-1]["text"]))
     ctx.log("generated %d primitives, %d trees" % (len(prims), len(trees)))
-    rc, out = ctx.run_harness(exe, input="\n".join(inp) + "\n", timeout=1500)
+    hres = run_cases(ctx, exe, inp[0], cases)
     ctx.log("harness done")
-    if rc != 0:
-        raise vlib.BuildError("probe harness failed rc=%d" % rc, out[-3000:])
-    hres = parse_harness(out)
+
+    def one_prim(cid):
+        h = hres[cid]
+        if h["crash"]:
+            return dict(error="CRASH " + h["crash"])
+        if h["error"] or len(h["prims"]) != 1:
+            return dict(error="CRASH " + (h["error"] or "no primitive output"))
+        return h["prims"][0]
+    hres["prims"] = dict(prims=[one_prim("p%d" % i) for i in range(len(prims))], error=None)
+    hres["tprims"] = dict(prims=[one_prim("q%d" % i) for i, _ in tprims], error=None)
 
     # ---------------- (a) surfaces of each primitive ----------------------
     exprs = ["map (fun ss => (fst ss, gq_list (snd ss))) (surfaces_of %s %s)" % (hexf(TOL), G.prim_coq(p)) for p in prims]
@@ -641,8 +823,6 @@ def run(ctx):
     hp = hres["prims"]
     ctx.log("model surfaces evaluated")
     htp = hres["tprims"]
-    if hp["error"] or len(hp["prims"]) != len(prims) or htp["error"] or len(htp["prims"]) != len(tprims):
-        raise vlib.BuildError("probe harness: primitive cases incomplete", (hp["error"] or "") + (htp["error"] or ""))
     # primitives the real constructors rejected: fine when it is a documented validation of a shape the
     # generator should not have made, a violation otherwise
     nrej = 0
@@ -652,8 +832,10 @@ def run(ctx):
                 if classify_error(hv["error"]) is None:
                     nrej += 1
                     if nrej <= 3:
-                        ctx.violation("construction-error", "a valid primitive was rejected: %s" % hv["error"],
-                                      {"error": hv["error"], "primitive": G.prim_text(p)})
+                        ctx.violation("crash" if hv["error"].startswith("CRASH") else "construction-error",
+                                      "a valid primitive was rejected / crashed the real code: %s" % hv["error"][:300],
+                                      {"error": hv["error"], "primitive": G.prim_text(p),
+                                       "harness_input": "case c\nprim %s\nendcase\n" % G.prim_text(p)})
                 else:
                     ctx.count("prim-rejected:" + classify_error(hv["error"]))
     # ---- transformed differential (before filtering, indices refer to the full list)
@@ -717,6 +899,7 @@ def run(ctx):
                     if math.isfinite(v):
                         E[i] = max(E[i], abs(v))
         pts = [[r.uniform(-1.1, 1.1) * E[i] for i in range(3)] for _ in range(40)]
+        pts += [[r.choice([-1, 1]) * r.uniform(0.7, 0.999) * E[i] for i in range(3)] for _ in range(12)]
         if inn and all(math.isfinite(v) for v in inn):
             pts += [[r.uniform(inn[i], inn[3 + i]) for i in range(3)] for _ in range(12)]
         bpts.append(pts)
@@ -761,6 +944,35 @@ def run(ctx):
                                        "harness_input": "case b\nprim %s\nendcase\n" % G.prim_text(p)},
                                       signature=sig)
                 break
+    # exterior box in the PARENT frame (BoundingBoxUtils calc_transform applied by the surface builder):
+    # every sampled point of the solid, mapped through the transform, must lie inside it
+    keepmap = {orig: j for j, orig in enumerate(keep)}
+    ngb = 0
+    for (i, tr), hv in zip(tprims, htp["prims"]):
+        j = keepmap.get(i)
+        if j is None or "error" in hv:
+            continue
+        gext = hv["bb"].get("gbbox_ext")
+        p = prims[j]
+        if not gext:
+            continue
+        for q, (idef, ibuilt, clear) in zip(bpts[j], bvals[j]):
+            if not (clear and ibuilt and idef):
+                continue
+            g = G.tf_apply(tr, q)
+            ctx.case(("gbbox", G.prim_text(p), G.tf_text(tr), q), nontrivial=True)
+            if not all(gext[a] - 1e-9 * (1 + abs(gext[a])) <= g[a] <= gext[3 + a] + 1e-9 * (1 + abs(gext[3 + a])) for a in range(3)):
+                ngb += 1
+                sig = "parallelepiped-exterior-bbox-too-small" if (p["k"] == "ppiped" and (p["p"][3] != 0 or p["p"][4] != 0)) else None
+                if ngb <= 3 or sig:
+                    ctx.violation("bounding-zone", "%s under a transform: a point of the solid lies outside the exterior box computed "
+                                  "for the parent frame" % p["k"],
+                                  {"primitive": G.prim_text(p), "transform": G.tf_text(tr), "local_point": q, "point": g,
+                                   "global_bbox_ext": gext, "local_bbox_ext": hv["bb"].get("bbox_ext"),
+                                   "harness_input": "case c\nprimt %s %s\nendcase\n" % (G.tf_text(tr), G.prim_text(p))},
+                                  signature=sig)
+                break
+    ctx.count("transformed-bbox-violations", ngb)
     # tie of the model's [declared_bboxes] (used by the bzone theorems / refutations) to the code
     # (prism: interior only -- axis-aligned side faces additionally clip the exterior box, not modelled)
     kinds_b = {"box": (True, True), "sphere": (True, True), "cyl": (True, True), "prism": (True, False),
@@ -800,6 +1012,13 @@ def run(ctx):
     seen_sig = set()
     for ti, (t, mv) in enumerate(zip(trees, mres)):
         h = hres.get("t%d" % ti)
+        if h is not None and h["crash"]:
+            ctx.count("harness-crash")
+            if nviol < 8:
+                nviol += 1
+                ctx.violation("crash", "building / probing a valid object tree made the real code misbehave: %s" % h["crash"][:300],
+                              {"what": h["crash"], "harness_input": "tol %s\n%s\n" % (float(TOL).hex(), t["text"])})
+            continue
         if h is None or h["error"] or h["probes"] is None:
             err = h["error"] if h else "no output"
             sig = classify_error(err)
@@ -809,43 +1028,55 @@ def run(ctx):
                 ctx.violation("construction-error", "a valid object tree was rejected: %s" % err,
                               {"error": err, "harness_input": "tol %s\n%s\n" % (float(TOL).hex(), t["text"])})
             continue
-        for p, hv, lv in zip(t["pts"], h["probes"], mv):
-            levels = attach_units(lv, t["top"])
-            status, acc_def, acc_built = expected_from_levels(levels)
-            if status == "skip":
-                stats["skip"] += 1
-                continue
-            got = hv[0]
-            ctx.case(("probe", ti, p), nontrivial=True)
-            stats["checked"] += 1
-            ctx.count("result:" + ("exterior" if got == "[EXTERIOR]" else "bg" if got.endswith(".bg") else
-                                   "rest" if got.endswith(".rest") else "failed" if got == "FAILED" else "material"))
-            if len(acc_def) > 1:
-                stats["ambiguous"] += 1
-            okd = got in acc_def or ("*daughter*" in acc_def)
-            okb = got in acc_built or ("*daughter*" in acc_built)
-            if acc_def != acc_built:
-                stats["model_disagree"] += 1
-            if okd:
-                continue
-            kinds = sorted(set(kinds_in_unit(levels[-1][4])))
-            sig = finding_signature(levels, p, acc_def, acc_built, got, h["vols"])
-            if sig in seen_sig and sig is not None:
-                continue
-            seen_sig.add(sig)
-            if nviol >= 8:
-                continue
-            nviol += 1
-            what = ("runtime volume '%s' but the definition of the solids puts the point in %s"
-                    % (got, sorted(acc_def)))
-            ctx.violation("meaning", what,
-                          {"point": p, "runtime_volume": got, "by_definition": sorted(acc_def),
-                           "by_construction_model": sorted(acc_built),
-                           "levels": [(l[0], l[2], l[3]) for l in levels],
-                           "primitive_kinds_in_unit": kinds,
-                           "harness_input": "tol %s\n%s\n" % (float(TOL).hex(), minimal_text(t, p)),
-                           "replay": "props/C09/harness/build_probe.cc < harness_input (VERIF_C09_DEBUG=<prefix> dumps the CSG)"},
-                          signature=sig)
+        try:
+            if len(h["probes"]) != len(t["pts"]) or len(mv) != len(t["pts"]):
+                raise ValueError("probe count mismatch: %d points, %d runtime answers, %d model answers"
+                                 % (len(t["pts"]), len(h["probes"]), len(mv)))
+            for p, hv, lv in zip(t["pts"], h["probes"], mv):
+                levels = attach_units(lv, t["top"])
+                status, acc_def, acc_built = expected_from_levels(levels)
+                if status == "skip":
+                    stats["skip"] += 1
+                    continue
+                got = hv[0]
+                ctx.case(("probe", ti, p), nontrivial=True)
+                stats["checked"] += 1
+                ctx.count("result:" + ("exterior" if got == "[EXTERIOR]" else "bg" if got.endswith(".bg") else
+                                       "rest" if got.endswith(".rest") else "failed" if got == "FAILED" else "material"))
+                if len(acc_def) > 1:
+                    stats["ambiguous"] += 1
+                okd = got in acc_def or ("*daughter*" in acc_def)
+                okb = got in acc_built or ("*daughter*" in acc_built)
+                if acc_def != acc_built:
+                    stats["model_disagree"] += 1
+                if okd:
+                    continue
+                kinds = sorted(set(kinds_in_unit(levels[-1][4])))
+                sig = finding_signature(levels, p, acc_def, acc_built, got, h["vols"])
+                if sig in seen_sig and sig is not None:
+                    continue
+                seen_sig.add(sig)
+                if nviol >= 8:
+                    continue
+                nviol += 1
+                what = ("runtime volume '%s' but the definition of the solids puts the point in %s"
+                        % (got, sorted(acc_def)))
+                ctx.violation("meaning", what,
+                              {"point": p, "runtime_volume": got, "by_definition": sorted(acc_def),
+                               "by_construction_model": sorted(acc_built),
+                               "levels": [(l[0], l[2], l[3]) for l in levels],
+                               "primitive_kinds_in_unit": kinds,
+                               "harness_input": "tol %s\n%s\n" % (float(TOL).hex(), minimal_text(t, p)),
+                               "replay": "props/C09/harness/build_probe.cc < harness_input (VERIF_C09_DEBUG=<prefix> dumps the CSG)"},
+                              signature=sig)
+        except Exception as ex:      # the check's own processing must never end in exit 2
+            ctx.count("tie-broken")
+            if nviol < 8:
+                nviol += 1
+                import traceback
+                ctx.violation("tie-broken", "could not evaluate the outcome of a tree (%s: %s)" % (type(ex).__name__, ex),
+                              {"traceback": traceback.format_exc()[-1200:],
+                               "harness_input": "tol %s\n%s\n" % (float(TOL).hex(), t["text"])}, no_input=True)
     for k, v in stats.items():
         ctx.count("probe:" + k, v)
     if trees:
